@@ -14,7 +14,7 @@ LEAN_CONE = ['PncModel.Arr', 'PncModel.NsStep', 'PncModel.Generated.NamespaceOrd
              'PncProofs.FiberLemmas', 'PncProofs.C03', 'PncProofs.C04', 'PncProofs.C01', 'PncProofs.StackLemmas', 'PncProofs.SliceLemmas', 'PncProofs.C01Files', 'PncProofs.C02Files']
 LEMMA_FILES = ['PncProofs/ArrLemmas.lean', 'PncProofs/ZipLemmas.lean']
 REQUIRED_THEOREMS = ['orth_get', 'orth_shape', 'orth_full_id', 'normInt_lt', 'sliceIndices_lt', 'indices_lt',
-                     'int_keeps_unit_axis', 'zip_get', 'zip_shape', 'sliceVar_orth_get', 'sliceVar_zip_get']
+                     'int_keeps_unit_axis', 'zip_get', 'zip_shape', 'sliceVar_orth_get', 'sliceVar_zip_get', 'slice_orth_cells']
 RULE = ('[integers given as python ints or numpy integers; a fixed-width string variable (S8 / U8) along one dimension in a quarter of the cases] ' +
         'random files (1-5 dimensions incl. length-1 and unlimited, 1-6 variables of rank 0-4 over different '
         'dimension subsets and orders, coordinate variables, masked and unmasked, int/float dtypes, distinct '
